@@ -118,6 +118,7 @@ def run(F, chk):
                     rc.violation(key, b.where(bi), "slice/index not proven in bounds: " + why)
     buffer_resize_rule(F, chk)
     readiness_evidence_rule(F, chk)
+    size_boundary_rule(F, chk)
     # ---------------- R-C11-d (same-crate half; the cross-crate half is the compile-fail witness) ----
     rd = chk.rule("R-C11-d", "T4", "Buffer's cursor fields are written only inside impl Buffer", floor=4)
     for fld in ("memory", "capacity", "position", "end"):
@@ -268,3 +269,47 @@ def readiness_evidence_rule(F, chk):
             else:
                 r.violation(key, b.where(bi, si), "Channel::%s clears readiness without having called the socket: with edge-triggered registration no further event arrives for the bytes still in the kernel, and the rest of the stream is never delivered" % fn)
     r.require(n >= 4, "only %d readiness-clearing sites found in Channel::readable/writable" % n)
+
+
+def size_boundary_rule(F, chk):
+    """R-C11-g: `every message size up to the configured maximum` includes the maximum itself.  Writer and reader each
+    refuse a frame by building ChannelError::MessageTooLarge behind a comparison with max_buffer_size; both comparisons
+    must be strict (`len > max`): with `>=` on one side a frame of exactly max bytes is sent by the writer and refused
+    forever by the reader (the channel wedges behind it)."""
+    r = chk.rule("R-C11-g", "T8", "MessageTooLarge is raised only for sizes strictly above max_buffer_size", floor=2)
+    n = 0
+    for b0 in F.grep('"var":"MessageTooLarge"'):
+        if b0.derived or not b0.path.startswith("sozu_command_lib::channel::") or "::tests::" in b0.path:
+            continue
+        b = lib.flat(F, b0)
+        sites = [(bi, si) for bi, si, st in b.stmts() if st.get("rv", {}).get("k") == "agg" and st["rv"].get("var") == "MessageTooLarge"]
+        if not sites:
+            continue
+        strict, loose = [], []
+        for sb, f, t, atom in guards.bool_switches(b):
+            if atom[0] != "cmp":
+                continue
+            for tgt in (f, t):
+                rel = lib.relation_on_edge(b, sb, tgt)
+                if not rel:
+                    continue
+                op, sa, sbb, _ = rel
+                a_max = any(fl == "max_buffer_size" for _, fl in sa["fields"])
+                b_max = any(fl == "max_buffer_size" for _, fl in sbb["fields"])
+                if a_max == b_max:
+                    continue
+                # normalise to  value OP max
+                if a_max:
+                    op = {"Lt": "Gt", "Gt": "Lt", "Le": "Ge", "Ge": "Le"}.get(op, op)
+                (strict if op == "Gt" else loose if op == "Ge" else []).append((sb, tgt)) if op in ("Gt", "Ge") else None
+        for i, (bi, si) in enumerate(sites):
+            n += 1
+            r.fn(b0.path)
+            key = "%s|MessageTooLarge#%d only above max" % (b0.path, i)
+            if strict and lib.guarded_by(b, bi, strict):
+                r.ok(key, b.where(bi, si), "behind `size > max_buffer_size`")
+            elif loose and lib.guarded_by(b, bi, strict + loose):
+                r.violation(key, b.where(bi, si), "a frame whose size EQUALS max_buffer_size is refused here (`>=`), while the peer side accepts it: the message is sent, never delivered, and the reader re-reads the same refused prefix forever")
+            else:
+                r.violation(key, b.where(bi, si), "MessageTooLarge is raised without a dominating `size > max_buffer_size` comparison")
+    r.require(n >= 2, "only %d MessageTooLarge sites found in the channel" % n)
